@@ -68,6 +68,12 @@ class Report:
         self.stats = {}
         self.floors = []       # (what, found, floor)
         self.extra_cov = {}
+        self.broken_msgs = []
+
+    def broken(self, msg):
+        """Record an analysis-broken condition without aborting: a violation
+        found elsewhere in the same run still takes precedence."""
+        self.broken_msgs.append(msg)
 
     def add(self, o):
         self.obls.append(o)
@@ -105,7 +111,7 @@ class Report:
             else:
                 unlisted.append(o)
             seen_keys.add(o.key())
-        broken = []
+        broken = list(self.broken_msgs)
         for c in self.controls:
             if not c["fired"]:
                 broken.append("positive control silent: %s/%s %s" %
